@@ -17,6 +17,7 @@ import (
 	"strconv"
 	"strings"
 	"testing"
+	"time"
 
 	"github.com/apmckinlay/gsuneido/db19/index"
 	"github.com/apmckinlay/gsuneido/db19/meta"
@@ -279,10 +280,20 @@ func c05history(tr *lib.Trace, r *rand.Rand, h int) {
 	tr.Count("damage=" + kind)
 
 	// ---- the real good vector, newest first
-	scnr := newScanner(store)
-	offsets, _ := scnr.getUpTo(1 << 30)
-	offsets = append([]uint64{}, offsets...)
-	scnr.close()
+	// (the offsets are collected the way scanner.scanner does, without its goroutine:
+	// getUpTo can miss the scanner's last wake-up, see findings/C05.md)
+	var offsets []uint64
+	for off := store.Size(); ; {
+		off = store.LastOffset(off, magic1, nil)
+		if off == 0 {
+			break
+		}
+		buf := store.Data(off)
+		if len(buf) < stateLen || string(buf[magic2at:magic2at+len(magic2)]) != magic2 {
+			continue
+		}
+		offsets = append(offsets, off)
+	}
 	rp := repair{store: store}
 	var bits strings.Builder
 	good := make([]bool, len(offsets))
@@ -347,8 +358,20 @@ func c05history(tr *lib.Trace, r *rand.Rand, h int) {
 	var idx int
 	var off uint64
 	var st *DbState
-	msg := lib.Catch(func() { idx, off, st = rs.search() })
 	desc := fmt.Sprintf("history %d: %d states, damage %s, good (newest first) = %s", h, k, kind, vec)
+	var msg string
+	finished := make(chan struct{})
+	go func() {
+		msg = lib.Catch(func() { idx, off, st = rs.search() })
+		close(finished)
+	}()
+	select {
+	case <-finished:
+	case <-time.After(60 * time.Second):
+		tr.Qf("!hang", "search %s", vec)
+		tr.Fail("repair-search-hang", desc+" : repair.search did not return within 60 s")
+		return
+	}
 	if msg != "" {
 		tr.Qf("!panic", "search %s", vec)
 		sig := "search-panic"
